@@ -38,7 +38,7 @@ func (c16) Parallel(string) int          { return 8 }
 var tenantPairs = [][2]string{
 	{"a", "ab"}, {"alice", "alicecol1"}, {"alice", "alice x"}, {"bob", "bob."}, {"user", "User"}, {"ünï", "ünïcode"},
 	{".", "col1"}, {"..", "userCollections"}, {"x", strings.Repeat("x", 200)}, {"col1", "col2"}, {"a.b", "a"}, {"t1", "t2"},
-	{"..", "node0"}, {".", "."+"x"},
+	{"..", "node0"}, {".", "." + "x"},
 }
 
 func (c16) Cases(tier string, seed uint64) []fw.Case {
